@@ -436,6 +436,19 @@ pub fn run(ctx: &Ctx) -> Report {
             let mut cfg = Cfg::basic(now);
             cfg.reqs.prefixes = vec!["x-p-".into()];
             v.push(("prefix rule violated twice".to_string(), Case { wire: WireReq::from_wire(&build(&p).wire), cfg, prov: ProvSpec::standard() }, true));
+            // look-alike (differently cased) parameter names inside the Authorization header: a lookup that
+            // iterates a map instead of indexing it would pick by hash order
+            {
+                let p = e2e::base_plan(Carrier::Header);
+                let mut w = WireReq::from_wire(&build(&p).wire);
+                for h in w.headers.iter_mut() {
+                    if h.0 == "Authorization" {
+                        let t = String::from_utf8_lossy(&h.1).to_string();
+                        h.1 = format!("{}, signature={}, SIGNEDHEADERS=host, credential=AKIDOTHER/x", t, "0".repeat(64)).into_bytes();
+                    }
+                }
+                v.push(("look-alike Authorization parameters".to_string(), Case { wire: w, cfg: Cfg::basic(now), prov: ProvSpec::standard() }, false));
+            }
             // query carrier: 5 auth parameters + 1
             let mut p = e2e::base_plan(Carrier::Query);
             p.url_params = vec![(b"z".to_vec(), b"1".to_vec())];
